@@ -39,7 +39,7 @@ UNM = [
     (9, '{"??":{"x":5}}', "iInNsS_-", (0, 1, 2)),
     (11, '{"?":5}', "", (0, 1, 2)),
 ]
-UNM_DIAMOND = [(10, '{"?":5}', "XYVUxy", (0, 2))]
+UNM_DIAMOND = [(10, '{"?":5}', "XYVUxy", (0, 1, 2, 3))]
 
 DUP = [
     (1, '{"?":1,"?":2}', "AaXxBq", (0, 1)),
@@ -64,12 +64,15 @@ TAG = [
 
 def obligations(tier):
     L = []
-    for t in list(range(1, 10)) + [11]:
+    for t in range(1, 12):
         for st in (0, 1, 2):
             L.append(ob("marshal/t=%d/state=%d" % (t, st), ".", "VerifC15Marshal", [t, st], covers=["marshal-done"], max_seconds=600))
     for i, (t, tm, al, opts) in enumerate(UNM):
         for o in opts:
             L.append(ob("unm/%d/t=%d/opt=%d" % (i, t, o), ".", "VerifC15Unmarshal", [t, tm, al, o], max_seconds=900, max_paths=40000))
+    for i, (t, tm, al, opts) in enumerate(UNM_DIAMOND):
+        for o in opts:
+            L.append(ob("unmdiamond/%d/t=%d/opt=%d" % (i, t, o), ".", "VerifC15Unmarshal", [t, tm, al, o], max_seconds=900, max_paths=40000))
     for i, (t, tm, al, opts) in enumerate(DUP):
         for o in opts:
             L.append(ob("dup/%d/t=%d/opt=%d" % (i, t, o), ".", "VerifC15Dup", [t, tm, al, o], max_seconds=900, max_paths=40000))
